@@ -74,14 +74,6 @@ Proof.
   - eexists. split; [apply in_or_app; right; left; reflexivity|reflexivity].
 Qed.
 
-Lemma Pres_defaults s t : mboxes s = [] -> Pres s (add_defaults s t).
-Proof.
-  intros E. split.
-  - rewrite E. intros m [].
-  - intros m' _. right. rewrite E. intros m [].
-  - intros _. unfold IDS, add_defaults. simpl. repeat constructor; simpl; intuition discriminate.
-Qed.
-
 Lemma Pres_trans a b c : Pres a b -> Pres b c -> Pres a c.
 Proof.
   intros [K1 F1 I1] [K2 F2 I2]. split; auto.
@@ -94,19 +86,27 @@ Proof.
     + right. intros m Hm. destruct (K1 m Hm) as (m1 & H1 & E1 & _). rewrite <- E1. auto.
 Qed.
 
-(** CREATE (with its intermediate hierarchy) only appends rows *)
-Lemma create_parents_pres t ps : forall s,
-  let s1 := fold_left (fun s' p =>
-                 match find_name s' p with
-                 | Some _ => s'
-                 | None => match create_mailbox_row s' p t with
-                           | Some (s'', _) => s'' | None => s' end
-                 end) ps s in
-  Pres s s1.
+Lemma Pres_create_or_same s n t : Pres s (create_or_same s n t).
 Proof.
+  unfold create_or_same. destruct (create_mailbox_row s n t) as [[s' id]|] eqn:C; [|apply Pres_refl].
+  apply (Pres_create _ _ _ _ _ C).
+Qed.
+
+Lemma Pres_defaults s t : Pres s (add_defaults s t).
+Proof.
+  unfold add_defaults. repeat (eapply Pres_trans; [|apply Pres_create_or_same]). apply Pres_refl.
+Qed.
+
+(** CREATE (with its intermediate hierarchy) only appends rows *)
+Lemma create_parents_pres s name t : Pres s (fst (create_parents s name t)).
+Proof.
+  unfold create_parents. destruct (contains_byte name SLASH); cbn [fst]; [|apply Pres_refl].
+  generalize (parent_paths name). intros ps. revert s.
   induction ps as [|p r IH]; simpl; intros s; [apply Pres_refl|].
-  destruct (find_name s p); [apply IH|].
-  destruct (create_mailbox_row s p t) as [[s2 id]|] eqn:C; [|apply IH].
+  destruct p as [|c p]; [apply IH|].
+  destruct (equal_fold (c :: p) INBOX); [apply IH|].
+  destruct (find_name s (c :: p)); [apply IH|].
+  destruct (create_mailbox_row s (c :: p) t) as [[s2 id]|] eqn:C; [|apply IH].
   eapply Pres_trans; [apply (Pres_create _ _ _ _ _ C) | apply IH].
 Qed.
 
@@ -114,11 +114,11 @@ Lemma op_create_pres s n t : Pres s (fst (op_create s n t)).
 Proof.
   unfold op_create. destruct (trim_suffix n [SLASH]) as [|c name] eqn:T; [cbn [fst]; apply Pres_refl|].
   destruct (str_eqb (to_upper (c :: name)) INBOX); [cbn [fst]; apply Pres_refl|].
+  destruct (is_role_ns (c :: name)); [cbn [fst]; apply Pres_refl|].
   destruct (find_name s (c :: name)); [cbn [fst]; apply Pres_refl|].
-  match goal with |- context [create_mailbox_row ?X (c :: name) t] => set (s1 := X) end.
-  assert (P : Pres s s1).
-  { unfold s1. destruct (contains_byte (c :: name) SLASH); [apply create_parents_pres | apply Pres_refl]. }
-  destruct (create_mailbox_row s1 (c :: name) t) as [[s2 id]|] eqn:C; cbn [fst]; auto.
+  pose proof (create_parents_pres s (c :: name) t) as P.
+  destruct (create_mailbox_row (fst (create_parents s (c :: name) t)) (c :: name) t) as [[s2 id]|] eqn:C;
+    cbn [fst]; auto.
   eapply Pres_trans; [exact P | apply (Pres_create _ _ _ _ _ C)].
 Qed.
 
@@ -397,7 +397,7 @@ Proof.
   (* ---- first contact: count, initialisation transaction ---- *)
   - destruct (mboxes (c_store c)) eqn:MB; apply SAME; try reflexivity; try exact Logic.I; discriminate.
   - destruct (mboxes (c_store c)) eqn:MB.
-    + apply (tinv_links_same s0 c i _ _ _ T N); [apply Pres_defaults; exact MB|reflexivity|reflexivity|exact Logic.I|].
+    + apply (tinv_links_same s0 c i _ _ _ T N); [apply Pres_defaults|apply add_defaults_links|reflexivity|exact Logic.I|].
       intros mb m u X. discriminate.
     + apply SAME; try reflexivity; try exact Logic.I; discriminate.
   (* ---- PFirstDeliver: as PDeliver ---- *)
@@ -474,7 +474,7 @@ Proof.
   (* ---- PLogin ---- *)
   - destruct (mboxes (c_store c)) eqn:MB; apply SAME; try reflexivity; try exact Logic.I; discriminate.
   - destruct (mboxes (c_store c)) eqn:MB.
-    + apply (tinv_links_same s0 c i _ _ _ T N); [apply Pres_defaults; exact MB|reflexivity|reflexivity|exact Logic.I|].
+    + apply (tinv_links_same s0 c i _ _ _ T N); [apply Pres_defaults|apply add_defaults_links|reflexivity|exact Logic.I|].
       intros mb m u X. discriminate.
     + apply SAME; try reflexivity; try exact Logic.I; discriminate.
 Qed.
